@@ -302,7 +302,11 @@ func writeGroupIni(cmd *Command, group *Group, namespace string, writer io.Write
 }
 
 func writeOption(writer io.Writer, optionName string, optionType reflect.Kind, optionKey string, optionValue string, commentOption bool, forceQuote bool) {
-	if forceQuote || (optionType == reflect.String && !isPrint(optionValue)) {
+	// A string is quoted when it would not survive being read back as is:
+	// when it is not printable, when the reader would trim it (leading or
+	// trailing white space) or when the reader would take it for a quoted
+	// value (leading double quote)
+	if forceQuote || (optionType == reflect.String && (!isPrint(optionValue) || strings.TrimSpace(optionValue) != optionValue || strings.HasPrefix(optionValue, "\""))) {
 		optionValue = strconv.Quote(optionValue)
 	}
 
